@@ -517,6 +517,13 @@ def w7(run, roles):
     SEL = list(inv)[0]
     A, B = f"selector in {SEL}", f"None in {SEL}"
     n_dec = 0
+    # the map's values are member names (the keys of _selected_by, field names by C20-T4): `map[k] is None` never holds, so a
+    # "no member found" marker None is told apart from a found member without further ado
+    def never(a_):
+        return a_ in (f"{SEL}[selector] is None", f"{SEL}[None] is None")
+    ps = [p for p in ps if not any(never(a_) and v for a_, v, _ in p.cond)]
+    for p in ps:
+        p.cond = [c_ for c_ in p.cond if not never(c_[0])]
     for p in ps:
         lab = " & ".join(("" if v else "not ") + a_[:50] for a_, v, _ in p.cond if a_ not in ("none is None", "hasattr(tpm_type, '_selected_by')"))
         a_, b_ = p.truth(A), p.truth(B)
